@@ -281,6 +281,15 @@ def c12(pid, tier, replay):
             for ch in ["é", "\u200e", "\\\u0085", "\\\u200f", "\U0001F600"]:
                 for i in range(len(base) + 1):
                     add(entry, base[:i] + ch + base[i:])
+        # shapes that once hid a defect: a regex ending in a lone backslash after a resolved escape,
+        # separated from the name by a tab; comments with a line that starts with '/'
+        for base in ["%%\n\\qabc\\\t'x'\n", "%%\n\\q\\\t'x'\n", "%%\nabc\\\t'x'\n", "%%\n\\q\\\\\t'x'\n", "%x S\n%%\n<S>\\ma\\\t<INITIAL>'t'\n"]:
+            for m in [base] + mutants(base, rng, 6):
+                add("lex", m)
+        for base in ["%start S\n/* see\n// also\n*/\n%%\nS: 'a' /* x\n/ y */ | ;\n"]:
+            for m in [base] + mutants(base, rng, 6):
+                add("yacc_original", m)
+                add("yast_original", m)
         # generated %grmtools sections (nested arrays, namespaces, constructors, flags, strings
         # with escapes, numbers around u64::MAX, duplicates) and their mutants
         for h in p_hdr.extra_items(rng, 3000 if thorough else 50, 12 if thorough else 8):
